@@ -219,6 +219,16 @@ def run(shard, ctx):
                 if again is ba or bytes(again) != bytes(R.be(v, size)):
                     ctx.fail("C10:int_to_ba.result_depends_on_history", "scsi_int_to_ba(%#x,%d) after the caller changed an earlier result = %s" % (v, size, bytes(again).hex()),
                              {"value": v, "size": size})
+            if size >= 8:
+                m61 = (1 << 61) - 1
+                for small, mult in ((0, 1), (1, 1), (7, 8), (4, 4), (0x1234, 5), (255, 3)):
+                    for v in (small, small + mult * m61, small, small + mult * m61):
+                        if v >> (8 * size):
+                            continue
+                        ctx.case(("int-congruent", size, v), True)
+                        if bytes(conv.scsi_int_to_ba(v, size)) != bytes(R.be(v, size)):
+                            ctx.fail("C10:int_to_ba.result_depends_on_history", "scsi_int_to_ba(%#x,%d) wrong right after converting a value congruent mod 2**61-1" % (v, size),
+                                     {"value": v, "size": size})
             for _ in range(200):
                 b = bytes(rng.getrandbits(8) for _ in range(size))
                 ctx.case(("ba", b), size >= 2)
